@@ -24,6 +24,7 @@ CFG = {
     "modes": ["susp", "run", "meta"],
     "prog_kinds": ["gen", "coro", "agen", "func"],
     "kinds_violation": ["meta."],
+    "layout_twin": True,
 }
 
 
